@@ -112,3 +112,103 @@ def libraries(thorough=False, count=None, salt="A"):
 
 def level_a_specs(monitors=(), thorough=False, count=None):
     return [spec_for(d, name, monitors) for name, d, meta in libraries(thorough, count)]
+
+
+# ------------------------------------------------------------------ long argument names (C13: 132-column limit)
+
+_ATTR_WITH_NAMES = ("implied", "dimension", "len", "size", "charlen")
+_KEYWORDS = {"void", "int", "long", "short", "char", "double", "float", "bool", "const", "unsigned", "signed", "size_t"}
+
+
+def _split_top(s, sep=","):
+    out, cur, depth = [], "", 0
+    for ch in s:
+        if ch in "(<[":
+            depth += 1
+        elif ch in ")>]":
+            depth -= 1
+        if ch == sep and depth == 0:
+            out.append(cur)
+            cur = ""
+        else:
+            cur += ch
+    out.append(cur)
+    return out
+
+
+def long_names_decl(decl, length):
+    """The declaration with every parameter renamed to an identifier of `length` characters (references to the
+    parameters inside implied / dimension / len expressions follow).  None when the text is not a plain function
+    declaration this light-weight reader understands."""
+    import re
+    if decl.lstrip().startswith(("class", "struct", "enum", "typedef", "namespace", "template", "~")):
+        return None
+    i = decl.find("(")
+    if i < 0:
+        return None
+    depth = 0
+    j = None
+    for k in range(i, len(decl)):
+        if decl[k] == "(":
+            depth += 1
+        elif decl[k] == ")":
+            depth -= 1
+            if depth == 0:
+                j = k
+                break
+    if j is None:
+        return None
+    plist = decl[i + 1:j]
+    if not plist.strip() or plist.strip() == "void":
+        return None
+    params = _split_top(plist)
+    names = []
+    for p in params:
+        core = re.split(r"\s\+|=", p, 1)[0].strip()
+        if "(" in core:                      # function pointer parameter
+            return None
+        m = re.search(r"([A-Za-z_]\w*)\s*(\[[^\]]*\])?$", core)
+        if not m or m.group(1) in _KEYWORDS:
+            return None
+        names.append(m.group(1))
+    if len(set(names)) != len(names):
+        return None
+    new = {}
+    for n in names:
+        base = "%s_long_argument_name_for_the_column_limit_%s" % (n, "x" * 63)
+        new[n] = base[:max(length, len(n) + 2)]
+    def attr(m):
+        if m.group(1) not in _ATTR_WITH_NAMES:
+            return m.group(0)
+        return "+%s(%s)" % (m.group(1), re.sub(r"\b([A-Za-z_]\w*)\b", lambda x: new.get(x.group(1), x.group(1)), m.group(2)))
+    attr_re = r"\+(\w+)\(((?:[^()]|\([^()]*\))*)\)"
+    out = []
+    for p, n in zip(params, names):
+        parts = re.split(r"(\s\+|=)", p, 1)
+        core = parts[0]
+        rest = "".join(parts[1:])
+        k = core.rfind(n)
+        core = core[:k] + new[n] + core[k + len(n):]
+        out.append(core + re.sub(attr_re, attr, rest))
+    return decl[:i + 1] + ",".join(out) + ")" + re.sub(attr_re, attr, decl[j + 1:])
+
+
+def long_names(d, length):
+    """Copy of a library description with long parameter names; returns (dict, number of declarations renamed)."""
+    d = copy.deepcopy(d)
+    n = 0
+
+    def walk(decls):
+        nonlocal n
+        for e in decls:
+            if not isinstance(e, dict):
+                continue
+            if "declarations" in e and isinstance(e["declarations"], list):
+                walk(e["declarations"])
+            if isinstance(e.get("decl"), str) and not any(k in e for k in ("fortran_generic", "attrs", "splicer", "fstatements", "cxx_template")):
+                nd = long_names_decl(e["decl"], length)
+                if nd is not None:
+                    e["decl"] = nd
+                    n += 1
+    walk(d.get("declarations") or [])
+    return d, n
